@@ -19,6 +19,9 @@ use std::time::Duration;
 static CHAOS_COUNT: std::sync::atomic::AtomicU64 = std::sync::atomic::AtomicU64::new(0);
 /// Bumped by every change of the ring membership / host ids.
 static TOPO_VERSION: std::sync::atomic::AtomicU64 = std::sync::atomic::AtomicU64::new(0);
+/// Last sampled instant (ns, +1) at which NO ring member could serve a metadata fetch
+/// (up, reachable, system reads not failing); 0 = never so far.
+static NO_USABLE_NODE_AT: std::sync::atomic::AtomicU64 = std::sync::atomic::AtomicU64::new(0);
 /// Ring members that joined unreachable (connection attempts hang until the driver's
 /// connect timeout): each can keep the publishing worker waiting for its pool once.
 static BLACKHOLES: std::sync::atomic::AtomicU64 = std::sync::atomic::AtomicU64::new(0);
@@ -102,6 +105,7 @@ pub fn run(req: &RunRequest) -> Value {
 async fn main(plan: Plan) -> Outcome {
     let mut out = Outcome::default();
     TOPO_VERSION.store(0, std::sync::atomic::Ordering::SeqCst);
+    NO_USABLE_NODE_AT.store(0, std::sync::atomic::Ordering::SeqCst);
     CHAOS_COUNT.store(0, std::sync::atomic::Ordering::SeqCst);
     BLACKHOLES.store(0, std::sync::atomic::Ordering::SeqCst);
     FETCH_JUDGED.store(0, std::sync::atomic::Ordering::SeqCst);
@@ -384,6 +388,27 @@ async fn main(plan: Plan) -> Outcome {
             }
         }
     });
+    // Samples whether any member can serve a metadata fetch at all (twice a second).
+    let sampler_session = session.clone();
+    let sampler = tokio::spawn(async move {
+        loop {
+            {
+                // Only members the client has heard of count (plus its contact point).
+                let known: BTreeSet<[u8; 16]> = sampler_session.get_cluster_state().get_nodes_info().iter().map(|n| *n.host_id.as_bytes()).collect();
+                let w = world::world();
+                let now = w.now();
+                let usable = w
+                    .cluster
+                    .nodes
+                    .iter()
+                    .any(|n| (n.id == 0 || known.contains(&n.host_id)) && n.in_ring && n.up && !n.partitioned && n.system_queries_fail_until <= now);
+                if !usable {
+                    NO_USABLE_NODE_AT.store(now + 1, std::sync::atomic::Ordering::SeqCst);
+                }
+            }
+            world::sleep_ns(500 * MS).await;
+        }
+    });
     // Callers of refresh_metadata().
     let mut handles = Vec::new();
     for _ in 0..plan.refreshers {
@@ -414,7 +439,16 @@ async fn main(plan: Plan) -> Outcome {
                 n += 1;
                 match r {
                     Err(_) => {
-                        slow.push(t);
+                        // The deadline binds only if, during the whole wait, some member
+                        // could serve a fetch: with every member unreachable or failing its
+                        // system reads the driver answers one queued request per round of
+                        // failed attempts (each taking connect timeouts), however many
+                        // calls - also abandoned ones - are queued before this one.
+                        if NO_USABLE_NODE_AT.load(std::sync::atomic::Ordering::SeqCst) > t {
+                            world::world().probe("refresh_deadline_not_judged_no_usable_node");
+                        } else {
+                            slow.push(t);
+                        }
                         break;
                     }
                     Ok(Ok(())) => {
@@ -464,6 +498,7 @@ async fn main(plan: Plan) -> Outcome {
         }
     }
     let _ = chaos.await;
+    sampler.abort();
     world::sleep_ns(70 * SEC).await;
     for m in late.lock().unwrap().iter() {
         out.violation("c19.event_not_reflected", m.clone());
